@@ -95,7 +95,57 @@ func Tokens() []Tok {
 		sysex("SysEx200", 0xF0, append(fill(199, 5), 0xF7), 0),   // payload > 127 bytes
 		meta("ChannelPrefix", 0x20, []byte{0x05}, 0),
 		meta("KeySig", 0x59, []byte{0xFD, 0x01}, 0), // payload bytes >= 0x80
+		run("Poly0~", 0xA0, 0x3D, 0x12),
+		run("CC0~", 0xB0, 0x0A, 0x40),
+		run("After0~", 0xD0, 0x23),
+		run("Bend0~", 0xE0, 0x7F, 0x3F),
+		ch("Bend15", 0xEF, 0x01, 0x02), // highest channel status
+		run("Bend15~", 0xEF, 0x03, 0x04),
 	}
+}
+
+// StatusSweep returns, for every channel status 0x80..0xEF, a track that uses
+// it explicitly, then twice under running status; MetaSweep one track per meta
+// type 0x00..0x7F (except end-of-track) with a short payload.
+func StatusSweep() (bodies [][]byte, evs [][]refsmf.Event) {
+	for st := 0x80; st <= 0xEF; st++ {
+		n := refsmf.DataLen(byte(st))
+		var body []byte
+		var ev []refsmf.Event
+		for rep := 0; rep < 3; rep++ {
+			body = append(body, byte(rep)) // delta
+			d := []byte{byte(0x10 + rep), byte(0x7F - rep)}[:n]
+			if rep == 0 {
+				body = append(body, byte(st))
+			}
+			body = append(body, d...)
+			ev = append(ev, refsmf.Event{Delta: uint32(rep), Msg: append([]byte{byte(st)}, d...)})
+		}
+		body = append(body, 0x00, 0xFF, 0x2F, 0x00)
+		ev = append(ev, refsmf.Event{Delta: 0, Msg: refsmf.EOT})
+		bodies = append(bodies, body)
+		evs = append(evs, ev)
+	}
+	return
+}
+
+func MetaSweep() (bodies [][]byte, evs [][]refsmf.Event) {
+	for typ := 0; typ < 0x80; typ++ {
+		if typ == 0x2F {
+			continue
+		}
+		for _, pl := range [][]byte{nil, {0x01}, {0x07, 0xA1, 0x20}, {1, 2, 3, 4, 5}} {
+			body := []byte{0x00, 0x90, 0x3C, 0x40, 0x05, 0xFF, byte(typ), byte(len(pl))}
+			body = append(body, pl...)
+			body = append(body, 0x00, 0x3E, 0x40) // data under running status after a meta event is NOT legal: use explicit status
+			body = body[:len(body)-3]
+			body = append(body, 0x00, 0x90, 0x3E, 0x40, 0x00, 0xFF, 0x2F, 0x00)
+			ev := []refsmf.Event{{0, []byte{0x90, 0x3C, 0x40}}, {5, refsmf.Meta(byte(typ), pl)}, {0, []byte{0x90, 0x3E, 0x40}}, {0, refsmf.EOT}}
+			bodies = append(bodies, body)
+			evs = append(evs, ev)
+		}
+	}
+	return
 }
 
 // Delta is a delta-time encoding.
